@@ -117,3 +117,69 @@ def add_mat_scalar_ops(u, ms):
                 {'neg': C(ensures=eq_all(ms, 'res', A.map(lambda x: -x)))})
     Mm = SM.of(ms, 'm')
     u.take(P, 'impl<T>%s<T>' % N, 'mul_memberwise', C(ensures=eq_all(ms, 'res', A.zip(Mm, lambda a, b: a * b))))
+
+
+# ------------------------------------------------------------------ C03: element (i,j) everywhere
+def add_mat_index(u, ms):
+    P, N, n = ms.path, ms.name, ms.n
+    idx = ['(t.0 == %d && t.1 == %d) ==> *res == %s' % (i, j, ms.at('self', i, j)) for i in range(n) for j in range(n)]
+    u.take_impl(P, 'impl<T> Index<(usize, usize)> for %s<T>' % N, {'index': C(ensures=idx)}, mode='G')
+    u.add(P, 'impl<T> IndexSpecImpl<(usize, usize)> for %s<T> {\n    open spec fn index_req(&self, t: &(usize, usize)) -> bool { t.0 < %d && t.1 < %d }\n}' % (N, n, n))
+    ens = []
+    for i in range(n):
+        for j in range(n):
+            frame = ' && '.join('%s == %s' % (ms.at('final(self)', a, b), ms.at('old(self)', a, b))
+                                for a in range(n) for b in range(n) if (a, b) != (i, j))
+            ens.append('(t.0 == %d && t.1 == %d) ==> (*res == %s && %s == *final(res) && %s)'
+                       % (i, j, ms.at('old(self)', i, j), ms.at('final(self)', i, j), frame))
+    u.take_impl(P, 'impl<T> IndexMut<(usize, usize)> for %s<T>' % N, {'index_mut': C(ensures=ens, external_body=True)}, mode='G')
+
+
+def add_mat_movement(u, ms):
+    P, N, n = ms.path, ms.name, ms.n
+    V = ms.vec
+    gh = 'impl<T>%s<T>' % N
+    f = V.fields
+    u.take(P, gh, 'transpose', C(ret=None, ensures=['%s == %s' % (ms.at('final(self)', i, j), ms.at('old(self)', j, i))
+                                                    for i in range(n) for j in range(n)]), mode='G')
+    u.take(P, gh, 'diagonal', C(ensures=['res.%s == %s' % (f[i], ms.at('self', i, i)) for i in range(n)]), mode='G')
+    u.take(P, gh, 'with_diagonal', C(ensures=['%s.v@ == %s' % (ms.at('res', i, j), ('d.%s.v@' % f[i]) if i == j else '0real')
+                                              for i in range(n) for j in range(n)]))
+    u.take(P, gh, 'broadcast_diagonal', C(ensures=['%s.v@ == %s' % (ms.at('res', i, j), 'val.v@' if i == j else '0real')
+                                                   for i in range(n) for j in range(n)]))
+    tr = ' + '.join('%s.v@' % ms.at('self', i, i) for i in range(n))
+    u.take(P, gh, 'trace', C(ensures=['res.v@ == ' + tr]))
+    u.take_impl(P, 'impl<T: Zero + One> Default for %s<T>' % N,
+                {'default': C(ensures=['%s.v@ == %dreal' % (ms.at('res', i, j), 1 if i == j else 0)
+                                       for i in range(n) for j in range(n)])})
+    u.take(P, gh, 'gl_should_transpose', C(ensures=['res == %s' % ('true' if ms.layout == 'rows' else 'false')]), mode='G')
+    u.take(P, gh, 'map', C(
+        requires=['forall|x: T| call_requires(f, (x,))'],
+        ensures=['call_ensures(f, (%s,), %s)' % (ms.at('self', i, j), ms.at('res', i, j)) for i in range(n) for j in range(n)]),
+        mode='G')
+    u.take(P, gh, 'map2', C(
+        requires=['forall|x: T, y: S| call_requires(f, (x, y))'],
+        ensures=['call_ensures(f, (%s, %s), %s)' % (ms.at('self', i, j), ms.at('other', i, j), ms.at('res', i, j))
+                 for i in range(n) for j in range(n)]), mode='G')
+
+
+def add_mat_size_conversions(u, n_all=(2, 3, 4)):
+    """From<MatK> for MatN (embedding in the identity / upper-left block), both layouts"""
+    for layout in ('rows', 'cols'):
+        for nd in n_all:
+            for ns in n_all:
+                if nd == ns:
+                    continue
+                md, msrc = mat(nd, layout), mat(ns, layout)
+                bound = ' where T: Zero + One' if nd > ns else ''
+                hdr = 'impl<T> From<%s<T>> for %s<T>%s' % (msrc.name, md.name, bound)
+                u.take_impl(md.path, hdr, mode='G')
+                u.from_given.add(norm(hdr))
+
+                def el(i, j):
+                    if i < ns and j < ns:
+                        return msrc.at('m', i, j)
+                    return 'T::one_spec()' if i == j else 'T::zero_spec()'
+                u.add(md.path, 'impl<T> FromSpecImpl<%s<T>> for %s<T>%s {\n    open spec fn obeys_from_spec() -> bool { true }\n'
+                      '    open spec fn from_spec(m: %s<T>) -> %s<T> { %s }\n}'
+                      % (msrc.name, md.name, bound, msrc.name, md.name, mlit(md, md.name, el)))
